@@ -24,7 +24,8 @@ import (
 func init() { register("C05", runC05) }
 
 type c05Case struct {
-	Workers  uint64 `json:"workers"` // = max workers
+	Initial  uint64 `json:"initial_workers,omitempty"` // 0: same as Workers; otherwise the pool grows on demand
+	Workers  uint64 `json:"workers"`                   // max workers
 	Hits     int    `json:"hits"`
 	TgtSpin  int    `json:"targeter_spin_max"` // PRNG spin right after the critical section
 	RespSpin int    `json:"resp_spin_max"`
@@ -66,7 +67,11 @@ func runC05Case(run *ev.Run, cs c05Case) {
 		*t = targets[int(n)%len(targets)]
 		return nil
 	}
-	atk := vegeta.NewAttacker(vegeta.Client(&http.Client{Transport: rt}), vegeta.Workers(cs.Workers), vegeta.MaxWorkers(cs.Workers))
+	initial := cs.Workers
+	if cs.Initial > 0 {
+		initial = cs.Initial
+	}
+	atk := vegeta.NewAttacker(vegeta.Client(&http.Client{Transport: rt}), vegeta.Workers(initial), vegeta.MaxWorkers(cs.Workers))
 	results := atk.Attack(tr, p, 0, "c05")
 	var got []*vegeta.Result
 	done := make(chan struct{})
@@ -212,6 +217,7 @@ func (s *spyRT) RoundTrip(req *http.Request) (*http.Response, error) {
 }
 
 type c05RealCase struct {
+	TimeoutMs int    `json:"client_timeout_ms,omitempty"` // every 4th request is held longer than this by the server
 	Workers   uint64 `json:"workers"`
 	MaxConns  int    `json:"max_conns_per_host"`
 	Hits      int    `json:"hits"`
@@ -233,8 +239,12 @@ func runC05Real(run *ev.Run, cs c05RealCase) {
 			http.Redirect(w, r, next, http.StatusFound)
 		})
 	}
+	var served atomic.Int64
 	mux.HandleFunc(fmt.Sprintf("/hop%d", cs.Redirects), func(w http.ResponseWriter, r *http.Request) {
 		time.Sleep(delay)
+		if cs.TimeoutMs > 0 && served.Add(1)%4 == 0 {
+			time.Sleep(time.Duration(3*cs.TimeoutMs) * time.Millisecond) // the client gives up first
+		}
 		fmt.Fprint(w, "ok")
 	})
 	srv := httptest.NewServer(mux)
@@ -245,7 +255,11 @@ func runC05Real(run *ev.Run, cs c05RealCase) {
 	spy := &spyRT{base: base, inner: inner, first: map[uint64]time.Duration{}, total: map[uint64]time.Duration{}, last: map[uint64]time.Duration{}}
 	p := &recPacer{base: base}
 	p.decide = func(i int, _ time.Duration, _ uint64) (time.Duration, bool) { return 0, i >= cs.Hits }
-	atk := vegeta.NewAttacker(vegeta.Client(&http.Client{Transport: spy}), vegeta.Workers(cs.Workers), vegeta.MaxWorkers(cs.Workers))
+	opts := []func(*vegeta.Attacker){vegeta.Client(&http.Client{Transport: spy}), vegeta.Workers(cs.Workers), vegeta.MaxWorkers(cs.Workers)}
+	if cs.TimeoutMs > 0 {
+		opts = append(opts, vegeta.Timeout(time.Duration(cs.TimeoutMs)*time.Millisecond))
+	}
+	atk := vegeta.NewAttacker(opts...)
 	var got []*vegeta.Result
 	done := make(chan struct{})
 	results := atk.Attack(vegeta.NewStaticTargeter(vegeta.Target{Method: "GET", URL: srv.URL + "/hop0"}), p, 0, "c05real")
@@ -265,8 +279,11 @@ func runC05Real(run *ev.Run, cs c05RealCase) {
 	viol := func(clause, note string, r *vegeta.Result) {
 		run.Violate("C05/"+clause+"/real-transport", fmt.Sprintf("%+v: %s", cs, note), map[string]any{"real_case": cs, "note": note, "result": resBrief(r, base)})
 	}
-	okHits := 0
+	okHits, timedOut := 0, 0
 	for _, r := range got {
+		if r.Error != "" && cs.TimeoutMs > 0 {
+			timedOut++
+		}
 		ts := r.Timestamp.Sub(base)
 		first, seen := spy.first[r.Seq]
 		if !seen {
@@ -289,6 +306,7 @@ func runC05Real(run *ev.Run, cs c05RealCase) {
 		}
 	}
 	run.Count("real_transport_hits_ok", int64(okHits))
+	run.Count("real_transport_hits_timed_out_at_the_client", int64(timedOut))
 	b, _ := json.Marshal(cs)
 	run.Distinct("real:" + string(b))
 	run.Class(fmt.Sprintf("real-transport/redirects-%d/conns-%d", cs.Redirects, cs.MaxConns))
@@ -302,7 +320,7 @@ func runC05(c *Ctx) int {
 		rng := rand.New(rand.NewSource(c.Seed*15485863 + int64(shard)))
 		ws := []uint64{2, 4, 4, 16, 16, 64, 64, 256, 256, 1}
 		for i := 0; i < n; i++ {
-			cs := c05Case{Workers: ws[rng.Intn(len(ws))], Hits: 20000, TgtSpin: []int{0, 0, 64, 1024}[rng.Intn(4)], RespSpin: []int{0, 0, 200}[rng.Intn(3)], Seed: rng.Int63()}
+			cs := c05Case{Initial: []uint64{0, 0, 1, 2}[rng.Intn(4)], Workers: ws[rng.Intn(len(ws))], Hits: 20000, TgtSpin: []int{0, 0, 64, 1024}[rng.Intn(4)], RespSpin: []int{0, 0, 200}[rng.Intn(3)], Seed: rng.Int63()}
 			b, _ := json.Marshal(cs)
 			logCase(string(b))
 			runC05Case(run, cs)
@@ -310,6 +328,9 @@ func runC05(c *Ctx) int {
 		for i := 0; i < 4; i++ {
 			rc := c05RealCase{Workers: []uint64{1, 4, 8, 16}[rng.Intn(4)], MaxConns: []int{0, 1, 2}[rng.Intn(3)], Hits: 150,
 				HandlerUs: []int{0, 500, 2000}[rng.Intn(3)], Redirects: []int{0, 0, 2, 3}[rng.Intn(4)], KeepAlive: rng.Intn(3) != 0}
+			if i == 3 {
+				rc.TimeoutMs, rc.Hits, rc.MaxConns = 25, 60, 0
+			}
 			b, _ := json.Marshal(rc)
 			logCase(string(b))
 			runC05Real(run, rc)
@@ -355,7 +376,8 @@ func runC05(c *Ctx) int {
 	run.Floor("attacks", int64(shards*per*9/10))
 	run.Floor("results", int64(shards*per*20000*9/10))
 	run.Floor("results_arriving_out_of_seq_order", 1000)
-	run.Floor("real_transport_hits_ok", int64(shards*4*150/2))
+	run.Floor("real_transport_hits_ok", int64(shards*3*150/2))
+	run.Floor("real_transport_hits_timed_out_at_the_client", int64(shards))
 	run.FloorDistinct(shards * per / 2)
 	return run.Finish()
 }
